@@ -102,7 +102,106 @@ def run_case(case):
     return case, bad, len(pairs)
 
 
+# ------------------------------------------------------------------ aligner-level mirror differential (seed peaks given)
+AL = 'src/alignment/aligner.py::Aligner.align'
+
+
+def has_tie(case):
+    """two candidates that share a label and lie equally far from a seed diagonal: excluded by the statement (no equidistant ties)"""
+    d = case['maxDistance']
+    for pk in case['peaks']:
+        byr, byq = {}, {}
+        for i, r in enumerate(case['ref']):
+            for j, q in enumerate(case['query']):
+                o = abs(q - (r - pk))
+                if o <= d:
+                    byr.setdefault(i, []).append(o)
+                    byq.setdefault(j, []).append(o)
+        for v in list(byr.values()) + list(byq.values()):
+            if len(set(v)) != len(v):
+                return True
+    return False
+
+
+def mirror_case(case):
+    """the real Aligner.align on a query read forwards and on its mirror image read on the reverse strand, same seed peaks"""
+    from src.alignment.aligner import Aligner, AlignerEngine
+    from src.alignment.alignment_position_scorer import AlignmentPositionScorer
+    from src.alignment.segments_factory import AlignmentSegmentsFactory
+    from src.alignment.segment_chainer import SegmentChainer, SequentialityScorer
+    from src.alignment.segment_with_resolved_conflicts import AlignmentSegmentConflictResolver
+    from src.correlation.optical_map import OpticalMap
+    from src.correlation.peak import Peak
+    ref = OpticalMap(1, case['ref'][-1] + 1000, list(case['ref']))
+    out = []
+    L = case['query'][-1] + 1
+    for rev in (False, True):
+        qpos = sorted(L - 1 - p for p in case['query']) if rev else list(case['query'])
+        aligner = Aligner(AlignmentPositionScorer(1000, 1., -250), AlignmentSegmentsFactory(1000, 1200), AlignerEngine(case['maxDistance']),
+                          AlignmentSegmentConflictResolver(SegmentChainer(SequentialityScorer(1., 0))))
+        row = aligner.align(ref, OpticalMap(5, L, qpos), [Peak(pk, 10. + i) for i, pk in enumerate(case['peaks'])], rev)
+        out.append(([(p.reference.siteId, p.query.siteId) for p in row.alignedPairs], row.confidence, len([s for s in row.segments if s.positions]),
+                    row.orientation, (row.queryStartPosition, row.queryEndPosition, row.referenceStartPosition, row.referenceEndPosition)))
+    n = len(case['query'])
+    a, b = out
+    bad = []
+    if a[3] != '+' or b[3] != '-':
+        bad.append('opposite_orientation')
+    if [r for r, _ in a[0]] != [r for r, _ in b[0]]:
+        bad.append('same_reference_labels')
+    elif [(r, n + 1 - k) for r, k in a[0]] != b[0]:
+        bad.append('query_label_k_becomes_N_plus_1_minus_k')
+    elif abs(a[1] - b[1]) > 1e-6 * max(1.0, abs(a[1])):
+        bad.append('same_confidence')
+    elif a[0] and (a[4][2:] != b[4][2:]):
+        bad.append('same_reference_span')
+    return bad, a[2], dict(forward=dict(pairs=a[0][:40], confidence=a[1]), mirror=dict(pairs=b[0][:40], confidence=b[1]))
+
+
+def mirror_chunk(seeds):
+    from bcheck.c15 import build_case
+    out, nt, n = [], 0, 0
+    for s in seeds:
+        case = build_case(s)
+        if has_tie(case):
+            continue
+        n += 1
+        try:
+            with time_limit(20):
+                bad, nseg, detail = mirror_case(case)
+        except CaseTimeout:
+            bad, nseg, detail = ['terminates'], 0, None
+        except Exception as e:
+            bad, nseg, detail = [f'no_exception:{type(e).__name__}'], 0, repr(e)[:200]
+        nt += 1 if nseg >= 2 else 0
+        if bad:
+            out.append((case, bad, detail))
+    return n, nt, out[:10]
+
+
 def bounded(repo, tier, seed):
+    from bcheck.common import merge
+    r1 = bounded_program(repo, tier, seed)
+    na = 40000 if tier == 'quick' else 1200000
+    seeds = [seed * 1000003 + i for i in range(na)]
+    res = pmap(mirror_chunk, [seeds[i:i + 200] for i in range(0, na, 200)], repo)
+    viol = {}
+    for r in res:
+        for case, bad, detail in r[2]:
+            key = f"{AL}::monitor::C11::{bad[0]}"
+            if key not in viol or len(case['query']) < len(viol[key]['input']['aligner_case']['query']):
+                viol[key] = dict(key=key, blame=AL, input=dict(aligner_case=case), observed=detail, required='C11 statement (code paths after seeding)')
+    from bcheck.c15 import build_case
+    r2 = result(sum(r[0] for r in res), sum(r[1] for r in res),
+                "code paths after seeding (pairing, scoring, segment building, chaining, conflict resolution, record header): the real Aligner.align on a query read "
+                "forwards and on its mirror image read on the reverse strand with the SAME seed peaks (no binning involved, so no lattice is needed); generated "
+                "label data with 2-6 seed peaks on neighbouring diagonals; cases with two equidistant candidates for one label are skipped (the statement excludes "
+                "ties); opposite orientation, same reference labels, k -> N+1-k, same Confidence, same reference span; non-trivial = >= 2 segments in the forward row",
+                [build_case(seeds[0])], list(viol.values())[:4], exhaustive=False, bounds=f"{na} generated cases minus ties")
+    return merge([r1, r2])
+
+
+def bounded_program(repo, tier, seed):
     n = 28 if tier == 'quick' else 700
     cases = [(seed * 7717 + i,) for i in range(n)]
     res = pmap(run_case, cases, repo)
@@ -122,5 +221,8 @@ def bounded(repo, tier, seed):
 def replay(repo, rp):
     from bcheck.common import use_repo
     use_repo(repo)
+    if 'aligner_case' in rp['input']:
+        bad, _, detail = mirror_case(rp['input']['aligner_case'])
+        return (not bad), dict(violated=bad, detail=detail)
     case, bad, _ = run_case((rp['input']['seed'],))
     return (not bad), bad[:3]
